@@ -120,3 +120,55 @@ def run(ctx):
             else:
                 r.fail(rule, 'browse_next:release', 'the release path is not selected by release_continuation_points or still browses', loc=rel[0].loc)
     r.floor('C30', 'obligations', len(r.obls), 4)
+    expiry_examines_all(ctx)
+
+
+def expiry_examines_all(ctx, rule='expiry-examines-all'):
+    """remove_expired_browse_continuation_points looks at every stored point: all paths to its return pass the retain over
+    the whole queue, whose predicate is is_valid_browse_continuation_point(point, address_space), which in turn compares the
+    point's own timestamp with address_space.last_modified()"""
+    r, db = ctx.r, ctx.db
+    b = db.body('server::session::Session::remove_expired_browse_continuation_points')
+    if b is None:
+        r.lost(rule, 'remove_expired', 'remove_expired_browse_continuation_points not found'); return
+    F = ctx.facts(b)
+    rets = [c for c in b.calls() if c.callee.endswith('VecDeque::retain') and fmt_sym(b, F.sym_operand(c.args[0])).endswith(FIELD)]
+    if len(rets) != 1:
+        r.fail(rule, 'retain', 'expected exactly one retain over browse_continuation_points (found %d): expired points are not all examined' % len(rets), loc=b.loc)
+    else:
+        c = rets[0]
+        reach = b.reachable_blocks(0, stop={c.bb})
+        early = [bb for bb in b.return_blocks() if bb in reach and bb != c.bb]
+        if early:
+            r.fail(rule, 'retain', 'remove_expired_browse_continuation_points can return without examining the stored points (a path to the return avoids the '
+                   'retain): a point issued before a modification survives', loc=b.loc)
+        else:
+            r.ok(rule, 'retain', 'every path to the return passes the retain over the whole queue', loc=c.loc)
+    cls = db.find_bodies(r'^server::session::Session::remove_expired_browse_continuation_points::\{closure#\d+\}$')
+    pred = [x for x in cls if x.locals[0] == 'bool']
+    if len(pred) != 1:
+        r.lost(rule, 'predicate', 'retain predicate not found')
+    else:
+        p = pred[0]; Fp = ctx.facts(p)
+        ds = p.defs().get(0, [])
+        srcs = [fmt_sym(p, Fp.sym_rvalue(d[3], 0, d[1])) if d[0] == 'stmt' else d[2].callee for d in ds]
+        if srcs and all('is_valid_browse_continuation_point' in s_ for s_ in srcs):
+            r.ok(rule, 'predicate', 'a point is kept exactly when is_valid_browse_continuation_point answers true for it', loc=p.loc)
+        else:
+            r.fail(rule, 'predicate', 'the retain predicate is %s, not the validity of the point itself' % srcs, loc=p.loc)
+    vb = db.find_bodies(r'BrowseContinuationPoint::is_valid_browse_continuation_point$')
+    if not vb:
+        r.lost(rule, 'is_valid', 'is_valid_browse_continuation_point not found')
+    else:
+        v = vb[0]; Fv = ctx.facts(v)
+        ds = v.defs().get(0, [])
+        s_ = None
+        if len(ds) == 1 and ds[0][0] == 'stmt':
+            s_ = Fv.sym_rvalue(ds[0][3], 0, ds[0][1])
+        elif len(ds) == 1 and ds[0][0] == 'call' and ds[0][2].callee.rsplit('::', 1)[-1] in ('ge', 'eq') and len(ds[0][2].args) == 2:
+            s_ = ('bin', {'ge': 'Ge', 'eq': 'Eq'}[ds[0][2].callee.rsplit('::', 1)[-1]], Fv.sym_operand(ds[0][2].args[0]), Fv.sym_operand(ds[0][2].args[1]))
+        t = fmt_sym(v, s_) if s_ is not None else ''
+        if s_ is not None and s_[0] == 'bin' and s_[1] in ('Ge', 'Eq') and 'address_space_last_modified' in fmt_sym(v, s_[2]) and 'last_modified(' in fmt_sym(v, s_[3]):
+            r.ok(rule, 'is_valid', 'valid iff the point is not older than the last modification: %s' % t[:100], loc=v.loc)
+        else:
+            r.fail(rule, 'is_valid', 'is_valid_browse_continuation_point is not `point.address_space_last_modified >= address_space.last_modified()` (%s)' % t[:100], loc=v.loc)
